@@ -53,9 +53,9 @@ theorem released_stable (s s' : S) (l : Label) (hr : s.r = .exited) (hf : s.fdOp
 before the `go` statement (regenerated skeleton) -/
 theorem failed_new_allocates_nothing :
     (SkeletonTie.lookupFn "newBackend" Gen.skeleton).map (fun ops => ops.map (fun o => (o.kind, o.a))) =
-      some [("sys", "InotifyInit1"), ("ifBegin", "%1==-1"), ("ret", "nil, %2"), ("ifEnd", ""),
+      some [("sys", "InotifyInit1"), ("ifBegin", "%1==-1"), ("ret", "nil, %1"), ("ifEnd", ""),
         ("call", "newShared"), ("fileOp", "NewFile"), ("call", "newWatches"), ("makeChan", "struct{}"),
-        ("go", "readEvents"), ("ret", "%3, nil")] := by
+        ("go", "readEvents"), ("ret", "%1, nil")] := by
   decide +kernel
 
 end C13
